@@ -310,7 +310,137 @@ def template_cases(tier):
     return out
 
 
-SECTIONS = {"eos": (cases, case_eos), "traced": (traced_cases, case_traced), "template": (template_cases, case_template)}
+# --------------------------------------------------------------------------------------
+# (H) object re-use: every ordered sequence of calls on ONE Hydrodynamics / template object returns, for its LAST call,
+# what a freshly constructed object returns for that call. (A stale cache or a flag left behind by an earlier call
+# breaks conservation for the later one; the lattice sections above only ever make one call per fresh object.)
+# --------------------------------------------------------------------------------------
+REUSE_EOS = [
+    dict(kind="bag", args=[0.8], Tn=0.8, s=1.0),
+    dict(kind="template", args=[0.1, 0.95, 0.27, 1 / 3], Tn=1.0, s=1.0),
+    dict(kind="template", args=[0.3, 0.75, 1 / 3, 0.27], Tn=1.0, s=1.0),
+    dict(kind="template", args=[0.6, 0.95, 1 / 3, 1 / 3], Tn=1.0, s=100.0),  # alpha above the template's alpha_max: LTE is a runaway
+    dict(kind="quad", args=list(HL.QUADS["Q1"]), Tn=0.8, s=1.0, label="Q1"),
+    dict(kind="quad", args=list(HL.QUADS["Q4"]), Tn=0.9, s=1.0, label="Q4"),
+    dict(kind="twostep", args=[0.15, 0.12, 0.3], Tn=0.7, s=1.0),
+]
+
+
+def _reuse_ops(obj_kind, vel):
+    """alphabet: name -> callable(object). vel: dict label -> velocity."""
+    ops = {}
+    for lab in ("v0.3", "cb-", "hyb-mid", "vJ-", "vJ+", "v0.9"):
+        if lab in vel:
+            ops[f"findMatching({lab})"] = (lambda o, v=vel[lab]: o.findMatching(v))
+    for lab in ("v0.3", "hyb-mid", "vJ+"):
+        if lab in vel:
+            ops[f"findHydroBoundaries({lab})"] = (lambda o, v=vel[lab]: o.findHydroBoundaries(v))
+    for lab in ("hyb-mid", "v0.9"):
+        if lab in vel:
+            ops[f"efficiencyFactor({lab})"] = (lambda o, v=vel[lab]: o.efficiencyFactor(v))
+    ops["findvwLTE"] = lambda o: o.findvwLTE()
+    ops["findJouguetVelocity"] = lambda o: o.findJouguetVelocity()
+    if obj_kind == "full":
+        ops["fastestDeflag"] = lambda o: o.fastestDeflag()
+        ops["slowestDeton"] = lambda o: o.slowestDeton()
+        ops["vJ,vMin"] = lambda o: (float(o.vJ), float(o.vMin))
+    else:
+        ops["maxAl"] = lambda o: o.maxAl(100)
+        ops["vJ,vMin"] = lambda o: (float(o.vJ), float(o.vMin))
+    return ops
+
+
+def _obs(fn, obj):
+    try:
+        out = fn(obj)
+    except Exception as ex:  # an exception is an observation too
+        return ("raised", type(ex).__name__)
+    if out is None:
+        return ("none",)
+    arr = np.asarray(out, dtype=object).ravel()
+    return ("value", tuple(None if x is None else float(x) for x in arr))
+
+
+def _same(a, b, tol):
+    if a[0] != b[0]:
+        return False
+    if a[0] != "value":
+        return a == b
+    if len(a[1]) != len(b[1]):
+        return False
+    for x, y in zip(a[1], b[1]):
+        if (x is None) != (y is None):
+            return False
+        if x is None or (x != x and y != y):
+            continue
+        if not abs(x - y) <= tol * max(abs(x), abs(y), 1e-300):
+            return False
+    return True
+
+
+def case_reuse(c: dict) -> dict:
+    import itertools
+
+    import WallGo
+
+    logging.disable(logging.CRITICAL)
+    r = Rel(c["id"])
+    tol = HL.DEFAULT
+    eos, Tn = HL.build_eos(c)
+    adm = HL.admissible(eos, Tn)
+    if adm:
+        return r.result(inadmissible=adm)
+
+    def fresh():
+        hyd, th = HL.make_hydro(eos, Tn, tol)
+        if c["object"] == "full":
+            return hyd
+        return WallGo.HydrodynamicsTemplateModel(th, tol["rtol"], tol["atol"])
+
+    try:
+        probe, _ = HL.make_hydro(eos, Tn, tol)
+        vel = dict(HL.velocity_lattice(probe, eos, Tn))
+    except Exception as ex:
+        return r.result(inadmissible="Hydrodynamics could not be constructed: " + repr(ex)[:120])
+    ops = _reuse_ops(c["object"], vel)
+    ref = {name: _obs(fn, fresh()) for name, fn in ops.items()}
+    names = list(ops)
+    # accepted difference: 100 x the solver's relative tolerance (a warm start may legitimately move a root within its tolerance)
+    acc = 100 * tol["rtol"]
+    nseq = 0
+    depth = c["depth"]
+    for d in range(2, depth + 1):
+        # depth 3 only over the operations that could leave state behind (everything except pure attribute reads)
+        alphabet = names if d == 2 else [n for n in names if n.startswith(("findvwLTE", "maxAl", "fastestDeflag", "slowestDeton", "findMatching(vJ", "findMatching(hyb", "efficiencyFactor(hyb"))]
+        for seq in itertools.product(alphabet, repeat=d - 1):
+            # after the prefix EVERY operation is observed; live objects do not copy, so the prefix is replayed per observed operation
+            for last in names:
+                o2 = fresh()
+                for n in seq:
+                    _obs(ops[n], o2)
+                got = _obs(ops[last], o2)
+                nseq += 1
+                r.true(f"{'>'.join(seq)}>{last}:same-as-fresh-object", _same(got, ref[last], acc), got=got, fresh=ref[last])
+    r.detail.update(sequences=nseq, alphabet=names)
+    r.tag(f"reuse-{c['object']}")
+    return r.result(nontrivial=nseq > 0)
+
+
+def reuse_cases(tier):
+    out = []
+    for e in REUSE_EOS if tier != "quick" else REUSE_EOS[:2] + REUSE_EOS[3:5]:
+        for obj in ("full", "template"):
+            if obj == "template" and e["kind"] not in ("bag", "template"):
+                continue
+            d = dict(e)
+            d.update(object=obj, depth=2 if tier == "quick" else 3)
+            lab = e.get("label") or ",".join(f"{a:.4g}" for a in e["args"])
+            d["id"] = f"{obj}:{e['kind']}({lab}),Tn={e['Tn']:g},units={e['s']:g}"
+            out.append(d)
+    return out
+
+
+SECTIONS = {"eos": (cases, case_eos), "traced": (traced_cases, case_traced), "template": (template_cases, case_template), "reuse": (reuse_cases, case_reuse)}
 
 
 def run(ctx) -> None:
